@@ -214,7 +214,10 @@ class C09(Check):
                   "every ofp_error carries data; framing (C02) and the deferred sender (C20) are out of scope.")
     trusted_base = ["model Model/Conn.lean hand-written from of_01.py / openflow/__init__.py; tied by this correspondence run",
                     "harness: real OpenFlow_01_Task.run generator driven by hand (fake listener socket, scripted connection sockets), recording listeners, `_connect` wrapper"]
-    assumptions = ["listeners of the lifecycle events do not re-enter the connection (no halt / disconnect / send inside a handler)",
+    assumptions = ["THEOREMS: listeners of the lifecycle events do not re-enter the connection (no halt / disconnect / send inside a handler). TESTED beyond that "
+                   "(oracle only, no model): nexus-level ConnectionUp listeners that send on the connection or call sendToDPID, ConnectionDown listeners that call "
+                   "sendToDPID(event.dpid); a ConnectionUp listener that disconnects the connection breaks the event order (proposed known finding C09-6; those "
+                   "cases run once the finding is registered)",
                    "the default OpenFlowConnectionArbiter (nexus = core.openflow); miss_send_len and clear_flows_on_connect at their defaults",
                    "fewer than 2^31 xids drawn per run; every ofp_error message carries data; a read() delivers whole messages (framing is C02)",
                    "registry_exact assumes each connection's features replies name one datapath id (otherwise: known finding C09-5)"]
@@ -223,7 +226,7 @@ class C09(Check):
             "x {eof, select error, disconnect(), send error} x {alone, beside a live connection of the same datapath} x 2 batchings, every interleaving of the 4 handshake "
             "messages (both finishing variants) with <= 2 insertions of {port_status, echo_request, packet_in, error(other xid), error(other code)}, all 24 orders of the 4 "
             "handshake messages with <= 1 insertion, every connect/up/lose order of 2 connections; generated = sampled 3-insertion interleavings and 3-connection orders "
-            "(exhaustive in the thorough tier) + seeded random histories; non-trivial = at least one message was dispatched")
+            "(exhaustive in the thorough tier) + seeded random histories; + ~690 of the hand-written / loss-point / 2-connection histories re-run with re-entrant application listeners (oracle only); non-trivial = at least one message was dispatched")
 
     def setup(self):
         self.core = poxenv.boot()
